@@ -1,5 +1,6 @@
 """C12 — File storage returns the latest stored bytes under every layout option."""
 import gzip
+import json
 import hashlib
 import os
 import shutil
@@ -89,7 +90,12 @@ def run(ctx):
                 if kind in ("sf", "ff", "fe"):
                     name = gen_name(rng)
                 else:
-                    key = rng.choice(["k", "s0", "a"])
+                    key = rng.choice(["k", "s0", "a", "lvl/0", "v1..2"])
+                    if rng.random() < 0.12:
+                        # scale keys come from the info file: one that leads outside the dataset directory must be
+                        # refused like a file name is (the empty key makes the name absolute: fetches only, so that a
+                        # regression cannot write into the real file-system root)
+                        key = rng.choice(["../escaped", "a/../../x", "k/../../y"] + ([""] if kind == "fc" else []))
                     cs = rng.choice([4, 8])
                     lo = [cs * rng.randrange(0, 3) for _ in range(3)]
                     coords = (lo[0], lo[0] + cs, lo[1], lo[1] + cs, lo[2], lo[2] + cs)
@@ -156,6 +162,18 @@ def run(ctx):
                     ctx.oracle_fail(f"accessor raised {type(exc).__name__}: {exc}",
                                     {"config": cfg, "op": kind, "name": name if kind[1] != "c" else key})
                 # ---- independent oracle (property level) ----
+                if kind in ("sc", "fc"):
+                    kparts = key.split("/")
+                    if (key == "" or key.startswith("/") or ".." in kparts):
+                        if res != "refused":
+                            ctx.oracle_fail("a chunk whose scale key leads outside the dataset directory was not refused",
+                                            {"config": cfg, "op": kind, "key": key, "result": res})
+                        if sorted(os.listdir(tmp)) != ["ds"]:
+                            ctx.oracle_fail("a chunk operation wrote outside the dataset directory",
+                                            {"config": cfg, "op": kind, "key": key, "created": sorted(os.listdir(tmp))})
+                            for extra in os.listdir(tmp):
+                                if extra != "ds":
+                                    shutil.rmtree(os.path.join(tmp, extra), ignore_errors=True)
                 if kind == "sf":
                     norm = tuple(p for p in name.split("/") if p not in ("", "."))
                     escapes = name.startswith("/") or ".." in norm
@@ -277,6 +295,45 @@ def run(ctx):
                     ctx.oracle_fail("ShardedFileAccessor wrote outside the dataset directory", {"op": op, "name": name})
                 if op == "fetch" and not escapes and norm in stored and r != stored[norm] and r != "oserror":
                     ctx.oracle_fail("ShardedFileAccessor.fetch_file does not return the stored bytes", {"name": name})
+            # chunks: the scale key (taken from the info) is part of the path of the shard files
+            import atexit
+            for key in ["../escaped", "a/../../x", "k/../../y", "lvl/0", "k"]:
+                kbase = os.path.join(tmp, "dsk" + str(abs(hash(key)) % 1000))
+                os.makedirs(kbase)
+                spec = {"@type": "neuroglancer_uint64_sharded_v1", "minishard_bits": 0, "shard_bits": 0, "hash": "identity",
+                        "minishard_index_encoding": "raw", "data_encoding": "raw", "preshift_bits": 0}
+                kinfo = {"type": "image", "data_type": "uint8", "num_channels": 1,
+                         "scales": [{"key": key, "size": [4, 4, 4], "chunk_sizes": [[4, 4, 4]], "encoding": "raw",
+                                     "resolution": [1, 1, 1], "voxel_offset": [0, 0, 0], "sharding": spec}]}
+                with open(os.path.join(kbase, "info"), "w") as f:
+                    json.dump(kinfo, f)
+                before = sorted(os.listdir(tmp))
+                outcome = []
+                for op in ("store", "fetch"):
+                    a2 = ShardedFileAccessor(kbase)
+                    atexit.unregister(a2.close)
+                    try:
+                        if op == "store":
+                            a2.store_chunk(b"x" * 64, key, (0, 4, 0, 4, 0, 4))
+                            a2.close()
+                        else:
+                            a2.fetch_chunk(key, (0, 4, 0, 4, 0, 4))
+                        outcome.append("ok")
+                    except ValueError:
+                        outcome.append("refused")
+                    except Exception as exc:  # noqa
+                        outcome.append(type(exc).__name__)
+                ctx.case(("sharded-chunk-key", key))
+                esc = ".." in key.split("/")
+                if esc and outcome != ["refused", "refused"]:
+                    ctx.oracle_fail("the sharded accessor accepted a scale key that leads outside the dataset directory",
+                                    {"key": key, "store_fetch": outcome})
+                if not esc and outcome != ["ok", "ok"]:
+                    ctx.oracle_fail("the sharded accessor refused or lost a chunk under a legitimate scale key",
+                                    {"key": key, "store_fetch": outcome})
+                if sorted(os.listdir(tmp)) != before:
+                    ctx.oracle_fail("the sharded accessor wrote outside the dataset directory through the scale key",
+                                    {"key": key, "created": sorted(set(os.listdir(tmp)) - set(before))})
         finally:
             shutil.rmtree(tmp, ignore_errors=True)
     if ctx.driver_ok and reqs:
